@@ -51,6 +51,9 @@ def run(ctx):
         sp = {"ms_example_all_resilient_foods", "ms_example_seaweed", "net_nuclear_winter_reduced", "net_nuclear_resilient",
               "var_shutoff=continued"}
         sentinels = [c for c in cells if c["iso3"] in sc and c["preset"] in sp]
+        # every country's data rows (species mix, option rows per breeding strategy) at least once under each of the two
+        # non-default breeding strategies: data-dependent failures live in single rows of the species / country tables
+        sentinels += [c for c in cells if c["preset"] in ("ms_example_scenario", "var_meat_strategy=baseline_breeding")]
         cells = extra + sentinels + pick + [ctx.rng.choice(wcells)]
     else:
         cells = cells + wcells
